@@ -319,7 +319,7 @@ def contracts_for_use():
 INLINED = ['Region.pmin/pmax/centre/units/dims', 'Region._dim2index', 'Mesh.n/region']
 TRUSTED = ['contracts of Region.__init__ / Mesh.__init__ / Mesh.index2point (discharged under C01)',
            '[A] np.rot90(a, k, axes): element (i,j) lands at (n2-1-j, i) for k=1, (n1-1-i, n2-1-j) for k=2, (j, n1-1-i) for k=3 (conformance-tested in the bounded tier)',
-           '[A-trig] cos/sin of k*pi/2 are the exact quarter-turn table on k mod 4']
+           '[A-trig] np.round(np.cos / np.sin(k*pi/2)) is the exact quarter-turn table on k mod 4 (the library rounds the 6e-17 residue away since fix 352db988)']
 ASSUMPTIONS = ['field values are real numbers; the geometric reading g(R+Q(p-R)) = Q f(p) is the composition of the Field.rotate90 contract (index form) with the index/geometry lemma',
                'Field.rotate90 pre-states: meshes without subregions (with subregions: Mesh.rotate90 contract in place + bounded tier)']
 MUTANTS = {
